@@ -93,7 +93,12 @@ class C05(Check):
                 '/ impossible; quick: 150 sampled cases; distinct = distinct case descriptions')
 
     def executions(self, tier, seed):
-        return bp_cases.c05_executions(tier, seed)
+        traces, metas = bp_cases.c05_executions(tier, seed)
+        # the forwarding node of the BP / UDPCL composition: its fragments then travel through a real UDPCL agent
+        from harness.drivers import comp_cases
+        (xs, _us, _ys, cmetas) = comp_cases.executions(tier, seed)
+        self.extra_coverage = {'composition_traces': len(xs)}
+        return [('BpTrace', traces, metas), ('BpTrace', xs, [dict(m, node='X') for m in cmetas])]
 
 
 class C06(Check):
@@ -112,7 +117,13 @@ class C06(Check):
                 'histories')
 
     def executions(self, tier, seed):
-        return bp_cases.c06_executions(tier, seed)
+        traces, metas = bp_cases.c06_executions(tier, seed)
+        # the receiving node of the BP / UDPCL composition: fragments made by another real agent, carried by
+        # real UDPCL agents (segmented, re-ordered, repeated), re-assembled here
+        from harness.drivers import comp_cases
+        (_xs, _us, ys, cmetas) = comp_cases.executions(tier, seed)
+        self.extra_coverage = {'composition_traces': len(ys)}
+        return [('BpTrace', traces, metas), ('BpTrace', ys, [dict(m, node='Y') for m in cmetas])]
 
 
 REGISTRY = {'C05': C05, 'C06': C06}
